@@ -297,7 +297,7 @@ def _ds_get_axis(ex, st, self, args, kwargs, node):
 
 
 def _ds_library_axioms(ex, st, self):
-    """axis names distinct => k10_axis_named(doc, axes[i].name) is axes[i]; a name no axis has gives None"""
+    """axis names distinct => k10_axis_named(doc, axes[i].name) is axes[i]"""
     import z3
 
     from pyvc.core import Val, fresh, fresh_name, lift
@@ -306,11 +306,10 @@ def _ds_library_axioms(ex, st, self):
     name = ex.field_array(st, "DSAxis", "name")
     t = Opt(Ref("DSAxis")).sort()
     i, j = z3.Int(fresh_name("li")), z3.Int(fresh_name("lj"))
-    nm = fresh(STR, "ln")
     found = z3.ForAll([i], z3.Implies(z3.And(i >= 0, i < z3.Length(axes)), _axis_named()(lift(self), z3.Select(name, axes[i])) == t.some(axes[i])))
-    absent = z3.ForAll([nm], z3.Implies(z3.Not(z3.Exists([j], z3.And(j >= 0, j < z3.Length(axes), z3.Select(name, axes[j]) == nm))),
-                                        _axis_named()(lift(self), nm) == t.nil))
-    return Val(BOOL, z3.And(z3.Implies(_names_distinct(ex, st, self), found), absent))
+    # (that a name no axis has gives None is true as well, but no clause needs it; a quantifier over all strings only
+    # burdens the solvers)
+    return Val(BOOL, z3.Implies(_names_distinct(ex, st, self), found))
 
 
 cls("DSDoc", fields={"axes": List(Ref("DSAxis"))}, methods={"map_backward": _ds_map_backward, "getAxis": _ds_get_axis},
